@@ -102,7 +102,7 @@ SAT_CLASS_NAMES = {
     "cum": ["Additive_Cardinal_Sat", "CC_Sat", "Cardinality_Sat", "Cost_Sat"],
     "ord": ["Additive_Borda_Sat", "Cardinality_Sat", "Cost_Sat"],
 }
-SP_MODES = ["only", "other-measure", "sub-electorate", "empty"]
+SP_MODES = ["only", "other-measure", "sub-electorate", "empty", "other-representation"]
 
 
 def gen_satprofile_cfg(rng: random.Random, case: Case, rule, modes=SP_MODES, **kw):
@@ -121,7 +121,10 @@ def gen_satprofile_cfg(rng: random.Random, case: Case, rule, modes=SP_MODES, **k
     cfg["sp_sat"] = measure
     cfg["sp_mode"] = mode
     n = len(case.ballots)
-    if mode == "only":
+    if mode == "other-representation":
+        cfg["sp_repr"] = rng.choice(["other", "direct-multi"])
+        cfg["sp_only"] = rng.random() < 0.5
+    elif mode == "only":
         cfg["sp_only"] = True
     else:
         names = SAT_CLASS_NAMES[case.btype]
